@@ -543,7 +543,7 @@ theorem project_set_some (rest fs : List String) (g : String → Val) (x : Val) 
     simp only [Option.map_some, List.length_map]
     by_cases hcc : c = "chrom"
     · subst hcc
-      have : p = j := (List.getElem?_inj hp hnd (hc.trans hjc.symm))
+      have : p = j := (List.getElem?_inj hp hnd).mp (hc.trans hjc.symm)
       subst this
       simp [colIdx, hjlt]
     · have hpj : j ≠ p := by
@@ -561,5 +561,783 @@ theorem project_set_some (rest fs : List String) (g : String → Val) (x : Val) 
   · rw [List.getElem?_eq_none hp]
     have : ¬ j = p := by omega
     simp [this]
+
+/-- the default column list of the bin table starts with `chrom` -/
+theorem binsDefault_cons (keys : List String) :
+    (Fields.default.resolve binsStd keys).1
+      = "chrom" :: ("start" :: "end" :: keys.filter (fun k => !binsStd.contains k)) := rfl
+
+/-- `api.bins` on a list of columns is the projection of `api.bins` on all columns — including the
+conversion of integer chromosome ids -/
+theorem binsGet_project (t : Stored) (names : List String) (lo : Int) (hi : Option Int)
+    (fs : List String) (F : Frame) (hfs : fs ≠ []) (hnd : fs.Nodup)
+    (hsub : ∀ f ∈ fs, f ∈ (Fields.default.resolve binsStd t.names).1)
+    (hF : binsGet t names lo hi .default = .ok F) :
+    binsGet t names lo hi (.many fs) = F.project fs := by
+  rw [binsDefault_cons] at hsub
+  simp only [binsGet, binsDefault_cons] at hF ⊢
+  generalize hrest : ("start" :: "end" :: t.names.filter (fun k => !binsStd.contains k)) = rest at hF hsub
+  simp only [Fields.resolve] at hF ⊢
+  cases hout : tableGet t lo hi ("chrom" :: rest) false with
+  | error e => rw [hout] at hF; simp at hF
+  | ok out =>
+    rw [hout] at hF
+    have hp := tableGet_project t lo hi ("chrom" :: rest) fs out hfs hsub hout
+    have hform := tableGet_ok_form t lo hi ("chrom" :: rest) false out (by simp) hout
+    cases hsubt : tableGet t lo hi fs false with
+    | error e =>
+      -- impossible: the projection of an existing frame on existing columns succeeds
+      rw [hsubt] at hp
+      unfold Frame.project at hp
+      have h3 : (fs.all fun c => (colIdx out.cols c).isSome) = true := by
+        rw [hform]
+        exact List.all_eq_true.mpr fun c hc => by
+          obtain ⟨k, hk⟩ := colIdx_of_mem _ c (hsub c hc); simp [hk]
+      simp [h3] at hp
+    | ok sub =>
+      have hsform := tableGet_ok_form t lo hi fs false sub hfs hsubt
+      simp only
+      have hc0 : colIdx ("chrom" :: rest) "chrom" = some 0 := by simp [colIdx]
+      simp only [hc0, Option.map_some] at hF
+      unfold binsDecode at hF ⊢
+      simp only at hF
+      -- shape of `F.project fs`
+      have hproj : ∀ (rows : List Row),
+          Frame.project ⟨"chrom" :: rest, labels lo (pyRaw t lo hi).length, rows, false⟩ fs
+            = .ok ⟨fs, labels lo (pyRaw t lo hi).length,
+                rows.map (fun r => fs.map fun c => r.getD ((colIdx ("chrom" :: rest) c).getD 0) .nan), false⟩ := by
+        intro rows
+        unfold Frame.project
+        have h3 : (fs.all fun c => (colIdx ("chrom" :: rest) c).isSome) = true :=
+          List.all_eq_true.mpr fun c hc => by
+            obtain ⟨k, hk⟩ := colIdx_of_mem _ c (hsub c hc); simp [hk]
+        simp [h3]
+      split at hF
+      · -- integer chromosome ids
+        rename_i k hint
+        by_cases hg : (out.rows.all fun r => codeOk names (r.getD 0 .nan)) = true
+        · simp only [hg, Bool.not_true, Bool.false_eq_true, if_false, Except.ok.injEq] at hF
+          subst hF
+          rw [hform] at hg ⊢
+          simp only [hproj, List.map_map]
+          have hg2 : ∀ r ∈ pyRaw t lo hi, codeOk names (cell t r "chrom") = true := by
+            intro r hr
+            have := List.all_eq_true.mp hg _ (List.mem_map_of_mem hr)
+            simpa using this
+          cases hj : colIdx fs "chrom" with
+          | none =>
+            simp only [Option.map_none, Except.ok.injEq]
+            rw [hsform]
+            simp only [Frame.mk.injEq, true_and, and_true]
+            apply List.map_congr_left
+            intro r _
+            simp only [Function.comp]
+            exact (project_set_none rest fs (cell t r) _ hsub hj).symm
+          | some j =>
+            simp only [Option.map_some, hint]
+            have hjc := colIdx_some fs "chrom" j hj
+            have hcellj : ∀ r : Row, (fs.map (cell t r)).getD j .nan = cell t r "chrom" := by
+              intro r
+              rw [List.getD_eq_getElem?_getD, List.getElem?_map, hjc]; rfl
+            rw [hsform]
+            have hg3 : ((pyRaw t lo hi).map (fun r => fs.map (cell t r))).all
+                (fun r => codeOk names (r.getD j .nan)) = true := by
+              apply List.all_eq_true.mpr
+              intro r' hr'
+              obtain ⟨r, hr, rfl⟩ := List.mem_map.mp hr'
+              rw [hcellj]; exact hg2 r hr
+            simp only [hg3, Bool.not_true, Bool.false_eq_true, if_false, Except.ok.injEq, Frame.mk.injEq,
+              true_and, and_true, List.map_map]
+            apply List.map_congr_left
+            intro r _
+            simp only [Function.comp]
+            rw [hcellj]
+            have := project_set_some rest fs (cell t r) (fromCode names (cell t r "chrom")) j hsub hnd hj
+            simp only [List.map_cons] at this
+            rw [← this]
+            simp
+        · rw [Bool.not_eq_true] at hg; rw [hg] at hF; simp at hF
+      · -- enum (or other) storage: nothing to convert
+        rename_i hne
+        simp only [Except.ok.injEq] at hF
+        subst hF
+        rw [← hp, hsubt]
+        cases hj : colIdx fs "chrom" with
+        | none => rfl
+        | some j => simp only [Option.map_some]
+
+/-- the columns a selector returns when no column key was given -/
+def srcDefaultCols : Src → List String
+  | .chroms t => (Fields.default.resolve chromsStd t.names).1
+  | .bins t _ => (Fields.default.resolve binsStd t.names).1
+  | .pixels t _ _ => (Fields.default.resolve pixelsStd t.names).1
+
+theorem slice_project (s : Selector) (fs : List String) (lo hi : Int) (F : Frame)
+    (hdef : s.fields = .default) (hj : srcJoin s.src = false)
+    (hfs : fs ≠ []) (hnd : fs.Nodup) (hsub : ∀ f ∈ fs, f ∈ srcDefaultCols s.src)
+    (hF : s.slice lo hi = .ok F) :
+    ({ s with fields := .many fs } : Selector).slice lo hi = F.project fs := by
+  obtain ⟨src, fields, nmax⟩ := s
+  simp only at hdef hj hsub hF ⊢
+  subst hdef
+  cases src with
+  | chroms t => exact tableGet_project t lo (some hi) _ fs F hfs hsub hF
+  | bins t names => exact binsGet_project t names lo (some hi) fs F hfs hnd hsub hF
+  | pixels t bt join =>
+    simp only [srcJoin] at hj
+    subst hj
+    simp only [Selector.slice, pixelsGet] at hF ⊢
+    cases h : tableGet t lo (some hi) (Fields.default.resolve pixelsStd t.names).1
+        (Fields.default.resolve pixelsStd t.names).2 with
+    | error e => rw [h] at hF; simp at hF
+    | ok out =>
+      rw [h] at hF
+      simp only [Bool.false_eq_true, if_false, Except.ok.injEq] at hF
+      subst hF
+      have := tableGet_project t lo (some hi) _ fs out hfs hsub h
+      simp only [Fields.resolve] at this ⊢
+      rw [this]
+      cases out.project fs <;> rfl
+
+theorem getRows_project (s : Selector) (fs : List String) (k : RowKey) (F : Frame)
+    (hdef : s.fields = .default) (hj : srcJoin s.src = false)
+    (hfs : fs ≠ []) (hnd : fs.Nodup) (hsub : ∀ f ∈ fs, f ∈ srcDefaultCols s.src)
+    (hF : s.getRows k = .ok F) :
+    ({ s with fields := .many fs } : Selector).getRows k = F.project fs := by
+  rw [getRows_eq] at hF ⊢
+  simp only at hF ⊢
+  cases hp : processKey s.nmax k with
+  | error e => rw [hp] at hF; simp at hF
+  | ok p =>
+    rw [hp] at hF
+    simp only at hF ⊢
+    exact slice_project s fs p.1 p.2 F hdef hj hfs hnd hsub hF
+
+/-- **column_selection_commutes** — `sel[cols][key] = (sel[key])[cols]`: for a chromosome, bin or
+un-joined pixel selector, any non-empty list of distinct existing columns and ANY row key for which
+`sel[key]` succeeds, selecting the columns first gives exactly the projection of the full-column
+result: same rows, same labels.  (For the bin table this includes the conversion of integer
+chromosome ids.) -/
+theorem column_selection_commutes (s : Selector) (fs : List String) (k : RowKey) (F : Frame)
+    (hdef : s.fields = .default) (hj : srcJoin s.src = false)
+    (hfs : fs ≠ []) (hnd : fs.Nodup) (hsub : ∀ f ∈ fs, f ∈ srcDefaultCols s.src)
+    (hF : s.getRows k = .ok F) :
+    ∃ s', selectorGetItem s (.cols fs) = .ok (.inl s') ∧ s'.getRows k = F.project fs :=
+  ⟨{ s with fields := .many fs }, rfl, getRows_project s fs k F hdef hj hfs hnd hsub hF⟩
+
+/-- the row-preservation reading: the projection keeps the index and the number of rows -/
+theorem project_keeps_rows (F P : Frame) (fs : List String) (h : F.project fs = .ok P) :
+    P.index = F.index ∧ P.rows.length = F.rows.length ∧ P.cols = fs := by
+  unfold Frame.project at h
+  split at h
+  · cases h
+  · simp only [Except.ok.injEq] at h
+    subst h; simp
+
+/-- non-vacuity: `c.bins()[["weight", "chrom"]][1:]` on an integer-encoded bin table -/
+example :
+    let t : Stored := ⟨[("chrom", .int), ("end", .int), ("start", .int), ("weight", .other)],
+      [[.int 0, .int 10, .int 0, .flt "0.5"], [.int 1, .int 7, .int 0, .nan]]⟩
+    let s : Selector := ⟨.bins t ["c0", "c1"], .default, 2⟩
+    s.getRows (.slice (some 1) none none)
+      = .ok ⟨["chrom", "start", "end", "weight"], [1], [[.str "c1", .int 0, .int 7, .nan]], false⟩
+    ∧ ({ s with fields := .many ["weight", "chrom"] } : Selector).getRows (.slice (some 1) none none)
+      = .ok ⟨["weight", "chrom"], [1], [[.nan, .str "c1"]], false⟩ := by
+  decide
+
+theorem binsDecode_series (t : Stored) (names : List String) (target : Option (String × Nat)) (fr : Frame) :
+    binsDecode t names target { fr with series := true }
+      = (binsDecode t names target fr).map fun x => { x with series := true } := by
+  unfold binsDecode
+  match target with
+  | none => rfl
+  | some (name, j) =>
+    simp only
+    split
+    · split <;> rfl
+    · rfl
+
+/-- a single column name gives the Series of the one-column list -/
+theorem slice_one (s : Selector) (f : String) (lo hi : Int) (hj : srcJoin s.src = false) :
+    ({ s with fields := .one f } : Selector).slice lo hi
+      = (({ s with fields := .many [f] } : Selector).slice lo hi).map fun x => { x with series := true } := by
+  obtain ⟨src, fields, nmax⟩ := s
+  cases src with
+  | chroms t => exact tableGet_series t lo (some hi) [f]
+  | bins t names =>
+    simp only [Selector.slice, binsGet, Fields.resolve]
+    rw [tableGet_series]
+    have htarget : (if f = "chrom" then some ("chrom", 0) else none : Option (String × Nat))
+        = (colIdx [f] "chrom").map fun j => ("chrom", j) := by
+      by_cases h : f = "chrom" <;> simp [colIdx, h]
+    rw [htarget]
+    cases tableGet t lo (some hi) [f] false with
+    | error e => rfl
+    | ok out => exact binsDecode_series t names _ out
+  | pixels t bt join =>
+    simp only [srcJoin] at hj
+    subst hj
+    simp only [Selector.slice, pixelsGet, Fields.resolve]
+    rw [tableGet_series]
+    cases tableGet t lo (some hi) [f] false <;> rfl
+
+/-- **column_selection_commutes** for a single name: `sel[name][key]` is the Series of
+`(sel[key])[[name]]` -/
+theorem column_selection_commutes_one (s : Selector) (f : String) (k : RowKey) (F : Frame)
+    (hdef : s.fields = .default) (hj : srcJoin s.src = false) (hsub : f ∈ srcDefaultCols s.src)
+    (hF : s.getRows k = .ok F) :
+    ∃ s', selectorGetItem s (.col f) = .ok (.inl s') ∧
+      s'.getRows k = (F.project [f]).map fun x => { x with series := true } := by
+  refine ⟨{ s with fields := .one f }, rfl, ?_⟩
+  have h := getRows_project s [f] k F hdef hj (by simp) (by simp)
+    (by intro c hc; simp only [List.mem_singleton] at hc; exact hc ▸ hsub) hF
+  rw [← h]
+  rw [getRows_eq, getRows_eq]
+  simp only
+  cases processKey s.nmax k with
+  | error e => rfl
+  | ok p => exact slice_one s f p.1 p.2 hj
+
+/-- **legacy_substring_rule_violates** — the pre-repair rule of `api.bins` (`"chrom" in fields` with
+`fields` a single name is a substring test; known_findings D20, repaired by 1a9d164) breaks the
+property: the stored integer column `mychrom = [1, 0]` comes back as chromosome names, so a column
+selection changes the values, whereas the repaired model returns the stored cells. -/
+theorem legacy_substring_rule_violates :
+    let t : Stored := ⟨[("chrom", .enum [("c0", 0), ("c1", 1)]), ("end", .int), ("mychrom", .int), ("start", .int)],
+      [[.int 0, .int 10, .int 1, .int 0], [.int 1, .int 7, .int 0, .int 0]]⟩
+    binsGetLegacy t ["c0", "c1"] 0 (some 2) (.one "mychrom")
+      = .ok ⟨["mychrom"], [0, 1], [[.str "c1"], [.str "c0"]], true⟩
+    ∧ binsGet t ["c0", "c1"] 0 (some 2) (.one "mychrom")
+      = .ok ⟨["mychrom"], [0, 1], [[.int 1], [.int 0]], true⟩
+    ∧ ((binsGetLegacy t ["c0", "c1"] 0 (some 2) .default).bind fun F => F.project ["mychrom"])
+      = .ok ⟨["mychrom"], [0, 1], [[.int 1], [.int 0]], false⟩ := by
+  decide
+
+/-! ## 6. `annotate` -/
+
+theorem labels_succ (l0 : Int) (n : Nat) : labels l0 (n + 1) = labels l0 n ++ [l0 + (n : Int)] := by
+  simp [labels, List.range_succ]
+
+/-- `searchsorted(beg, "left")` on the labels `l0, l0+1, …` -/
+theorem countP_lt_labels (l0 x : Int) (n : Nat) :
+    (labels l0 n).countP (fun l => decide (l < x)) = min n (x - l0).toNat := by
+  induction n with
+  | zero => simp [labels]
+  | succ n ih =>
+    rw [labels_succ, List.countP_append, ih]
+    by_cases h : l0 + (n : Int) < x
+    · simp only [List.countP_cons, List.countP_nil, h, decide_true, if_true]; omega
+    · simp only [List.countP_cons, List.countP_nil, h, decide_false, Bool.false_eq_true, if_false]; omega
+
+/-- `searchsorted(end, "right")` on the labels `l0, l0+1, …` -/
+theorem countP_le_labels (l0 e : Int) (n : Nat) :
+    (labels l0 n).countP (fun l => decide (l ≤ e)) = min n (e + 1 - l0).toNat := by
+  induction n with
+  | zero => simp [labels]
+  | succ n ih =>
+    rw [labels_succ, List.countP_append, ih]
+    by_cases h : l0 + (n : Int) ≤ e
+    · simp only [List.countP_cons, List.countP_nil, h, decide_true, if_true]; omega
+    · simp only [List.countP_cons, List.countP_nil, h, decide_false, Bool.false_eq_true, if_false]; omega
+
+theorem labels_head (l0 : Int) (n : Nat) (hn : 0 < n) : ∃ tl, labels l0 n = l0 :: tl := by
+  cases h : labels l0 n with
+  | nil => have := labels_length l0 n; rw [h] at this; simp at this; omega
+  | cons l tl =>
+    have := labels_getElem? l0 n 0
+    rw [h, if_pos hn] at this
+    simp only [List.getElem?_cons_zero, Option.some.injEq] at this
+    exact ⟨tl, by rw [this]; simp⟩
+
+theorem foldl_min_le (rest : List Int) (i : Int) : ∀ b ∈ i :: rest, rest.foldl min i ≤ b := by
+  induction rest generalizing i with
+  | nil => intro b hb; simp at hb; subst hb; simp
+  | cons x xs ih =>
+    intro b hb
+    simp only [List.foldl_cons]
+    have h1 := ih (min i x)
+    have hmin : xs.foldl min (min i x) ≤ min i x := h1 _ (by simp)
+    rcases List.mem_cons.mp hb with rfl | hb'
+    · omega
+    · rcases List.mem_cons.mp hb' with rfl | hb''
+      · omega
+      · exact h1 b (by simp [hb''])
+
+theorem le_foldl_max (rest : List Int) (i : Int) : ∀ b ∈ i :: rest, b ≤ rest.foldl max i := by
+  induction rest generalizing i with
+  | nil => intro b hb; simp at hb; subst hb; simp
+  | cons x xs ih =>
+    intro b hb
+    simp only [List.foldl_cons]
+    have h1 := ih (max i x)
+    have hmax : max i x ≤ xs.foldl max (max i x) := h1 _ (by simp)
+    rcases List.mem_cons.mp hb with rfl | hb'
+    · omega
+    · rcases List.mem_cons.mp hb' with rfl | hb''
+      · omega
+      · exact h1 b (by simp [hb''])
+
+/-- a frame whose index is `c0, c0+1, …` (a contiguous part of a table labelled by row number) -/
+def Contig (f : Frame) (c0 : Nat) : Prop := f.index = labels (c0 : Int) f.rows.length
+
+/-- the positional take relative to the first label of a part `[a, b)` of a contiguous frame finds
+the row labelled `c0 + p` of the frame, for every `a ≤ p < b` -/
+theorem part_take (W : Frame) (c0 a b p : Nat) (hc : Contig W c0)
+    (hap : a ≤ p) (hpb : p < b) (hpn : p < W.rows.length) :
+    let ann := framePart W a b
+    let offset : Int := firstLabel ann.index
+    ilocOk ann.rows.length (((c0 + p : Nat) : Int) - offset) = true ∧
+      ann.rows.getD (ilocPos ann.rows.length (((c0 + p : Nat) : Int) - offset)) [] = W.rows.getD p [] := by
+  intro ann offset
+  have hidx : ann.index = labels ((c0 : Int) + (a : Int)) (min (b - a) (W.rows.length - a)) := by
+    show (W.index.drop a).take (b - a) = _
+    rw [hc, labels_drop_take]
+  have hlen : ann.rows.length = min (b - a) (W.rows.length - a) := by
+    show ((W.rows.drop a).take (b - a)).length = _
+    rw [List.length_take, List.length_drop]
+  obtain ⟨tl, htl⟩ := labels_head ((c0 : Int) + (a : Int)) (min (b - a) (W.rows.length - a)) (by omega)
+  have hoff : offset = (c0 : Int) + (a : Int) := by
+    show firstLabel ann.index = _
+    rw [hidx, htl]; rfl
+  have hsub : ((c0 + p : Nat) : Int) - offset = ((p - a : Nat) : Int) := by rw [hoff]; omega
+  rw [hsub, hlen]
+  constructor
+  · simp only [ilocOk, Bool.and_eq_true, decide_eq_true_eq]; omega
+  · have hpos : ilocPos (min (b - a) (W.rows.length - a)) ((p - a : Nat) : Int) = p - a := by
+      unfold ilocPos
+      rw [if_neg (by omega)]; simp
+    rw [hpos, List.getD_eq_getElem?_getD, List.getD_eq_getElem?_getD]
+    show ((W.rows.drop a).take (b - a))[p - a]?.getD [] = _
+    rw [getElem?_drop_take, if_pos (by omega)]
+    congr 2; omega
+
+/-- the same for the label window `df.loc[beg:end]` of a contiguous frame: every label `b` with
+`beg ≤ b ≤ end` that the frame contains is found by `iloc[b - ann.index[0]]` -/
+theorem window_take (f : Frame) (c0 : Nat) (hc : Contig f c0) (beg : Int) (e : Option Int) (b : Int)
+    (h1 : beg ≤ b) (h2 : ∀ e', e = some e' → b ≤ e') (h3 : (c0 : Int) ≤ b) (h4 : b < (c0 : Int) + f.rows.length) :
+    let ann := locSliceFrame f beg e
+    let offset : Int := firstLabel ann.index
+    ilocOk ann.rows.length (b - offset) = true ∧
+      ann.rows.getD (ilocPos ann.rows.length (b - offset)) [] = f.rows.getD (b - (c0 : Int)).toNat [] := by
+  have hb : b = ((c0 + (b - (c0 : Int)).toNat : Nat) : Int) := by omega
+  have hstart : f.index.countP (fun l => decide (l < beg)) ≤ (b - (c0 : Int)).toNat := by
+    rw [hc, countP_lt_labels]; omega
+  cases e with
+  | none =>
+    have hstop : (b - (c0 : Int)).toNat < f.index.length := by rw [hc, labels_length]; omega
+    have := part_take f c0 _ _ (b - (c0 : Int)).toNat hc hstart hstop (by omega)
+    rw [← hb] at this
+    exact this
+  | some e' =>
+    have hstop : (b - (c0 : Int)).toNat < f.index.countP (fun l => decide (l ≤ e')) := by
+      have := h2 e' rfl
+      rw [hc, countP_le_labels]; omega
+    have := part_take f c0 _ _ (b - (c0 : Int)).toNat hc hstart hstop (by omega)
+    rw [← hb] at this
+    exact this
+
+/-- the window `annotate` asks for contains every id of the list (both strategies) -/
+theorem window_covers (len : Nat) (ids : List Int) (b : Int) (hb : b ∈ ids) (h0 : 0 ≤ b) :
+    (annotateWindow len ids).1 ≤ b ∧ ∀ e', (annotateWindow len ids).2 = some e' → b ≤ e' := by
+  cases ids with
+  | nil => simp at hb
+  | cons i rest =>
+    simp only [annotateWindow]
+    split
+    · refine ⟨foldl_min_le rest i b hb, ?_⟩
+      intro e' he'
+      simp only [Option.some.injEq] at he'
+      subst he'
+      exact le_foldl_max rest i b hb
+    · exact ⟨h0, by intro e' he'; cases he'⟩
+
+/-- one side of `annotate` against a contiguous frame that contains every id: the row labelled `b`
+for every id `b`, in the order of the ids — whichever strategy is taken -/
+theorem annotateSide_frame (f : Frame) (c0 : Nat) (hc : Contig f c0) (suffix : String) (ids : List Int)
+    (hids : ∀ b ∈ ids, (c0 : Int) ≤ b ∧ b < (c0 : Int) + f.rows.length) :
+    annotateSide (.frame f) suffix ids =
+      .ok (f.cols.map (· ++ suffix), ids.map fun b => f.rows.getD (b - (c0 : Int)).toNat []) := by
+  unfold annotateSide
+  simp only [locSlice]
+  have hcov : ∀ b ∈ ids, (annotateWindow (BinsArg.frame f).len ids).1 ≤ b ∧
+      ∀ e', (annotateWindow (BinsArg.frame f).len ids).2 = some e' → b ≤ e' :=
+    fun b hb => window_covers _ ids b hb (by have := (hids b hb).1; omega)
+  generalize annotateWindow (BinsArg.frame f).len ids = win at hcov ⊢
+  have hall : (ids.all fun b => ilocOk (locSliceFrame f win.1 win.2).rows.length
+      (b - firstLabel (locSliceFrame f win.1 win.2).index)) = true := by
+    apply List.all_eq_true.mpr
+    intro b hb
+    exact (window_take f c0 hc win.1 win.2 b (hcov b hb).1 (hcov b hb).2 (hids b hb).1 (hids b hb).2).1
+  simp only [hall, Bool.not_true, Bool.false_eq_true, if_false, Except.ok.injEq, Prod.mk.injEq]
+  refine ⟨rfl, ?_⟩
+  apply List.map_congr_left
+  intro b hb
+  exact (window_take f c0 hc win.1 win.2 b (hcov b hb).1 (hcov b hb).2 (hids b hb).1 (hids b hb).2).2
+
+theorem hcat_map {α} (l : List α) (g h : α → Row) :
+    hcat (l.map g) (l.map h) = l.map fun x => g x ++ h x := by
+  induction l with
+  | nil => rfl
+  | cons x xs ih => simp only [List.map_cons, hcat, List.zipWith_cons_cons] at ih ⊢; rw [ih]
+
+theorem mapE_ok_map {α β ε} (f : α → Except ε β) (g : α → β) (l : List α)
+    (h : ∀ x ∈ l, f x = .ok (g x)) : mapE f l = .ok (l.map g) := by
+  induction l with
+  | nil => rfl
+  | cons x xs ih =>
+    simp only [mapE, h x (by simp), ih (fun y hy => h y (by simp [hy])), List.map_cons]
+
+/-- what the theorems assume of the pixel frame: both id columns exist (`k1`, `k2` their positions)
+and every row carries integer ids inside `[lo, hi)` -/
+structure IdsWithin (px : Frame) (k1 k2 lo hi : Nat) : Prop where
+  col1 : colIdx px.cols "bin1_id" = some k1
+  col2 : colIdx px.cols "bin2_id" = some k2
+  ids : ∀ r ∈ px.rows, ∃ i j : Nat, idOf k1 r = some (i : Int) ∧ idOf k2 r = some (j : Int) ∧
+    lo ≤ i ∧ i < hi ∧ lo ≤ j ∧ j < hi
+
+/-- **the core of the annotate proofs.**  Whatever the form of `bins`, if each side of `annotate`
+delivers, for every id list inside `[lo, hi)`, the rows `R[b]` of the whole table `(C, R)` in the order
+of the ids, then `annotate` equals the specification `annotateSpec C R`. -/
+theorem annotate_of_sides (bins : BinsArg) (C : List String) (R : List Row) (px : Frame)
+    (k1 k2 lo hi : Nat) (replace : Bool) (hhi : hi ≤ R.length) (hpx : IdsWithin px k1 k2 lo hi)
+    (hside : ∀ (sfx : String) (ids : List Int), (∀ b ∈ ids, (lo : Int) ≤ b ∧ b < (hi : Int)) →
+      annotateSide bins sfx ids = .ok (C.map (· ++ sfx), ids.map fun b => R.getD b.toNat [])) :
+    annotate px bins replace = annotateSpec C R px replace := by
+  obtain ⟨hk1, hk2, hids⟩ := hpx
+  have hcol : ∀ (name sfx : String) (k : Nat), colIdx px.cols name = some k →
+      (∀ r ∈ px.rows, ∃ i : Nat, idOf k r = some (i : Int) ∧ lo ≤ i ∧ i < hi) →
+      annotateCol px bins name sfx =
+        .ok (C.map (· ++ sfx), px.rows.map fun r => R.getD ((idOf k r).getD 0).toNat []) := by
+    intro name sfx k hk hr
+    unfold annotateCol
+    rw [hk]
+    simp only
+    have hall : (px.rows.all fun r => (idOf k r).isSome) = true :=
+      List.all_eq_true.mpr fun r hr' => by obtain ⟨i, hi, _⟩ := hr r hr'; simp [hi]
+    simp only [hall, Bool.not_true, Bool.false_eq_true, if_false]
+    rw [hside sfx _ (by
+      intro b hb
+      obtain ⟨r, hr', rfl⟩ := List.mem_map.mp hb
+      obtain ⟨i, hi, h1, h2⟩ := hr r hr'
+      rw [hi]; simp only [Option.getD_some]; omega)]
+    simp [List.map_map, Function.comp]
+  have h1 := hcol "bin1_id" "1" k1 hk1 (fun r hr => by
+    obtain ⟨i, j, hi, _, h1, h2, _, _⟩ := hids r hr; exact ⟨i, hi, h1, h2⟩)
+  have h2 := hcol "bin2_id" "2" k2 hk2 (fun r hr => by
+    obtain ⟨i, j, _, hj, _, _, h1, h2⟩ := hids r hr; exact ⟨j, hj, h1, h2⟩)
+  unfold annotate annotateSpec
+  rw [h1, h2, hk1, hk2]
+  simp only [hcat_map]
+  rw [mapE_ok_map (specRow R k1 k2 (keepMask px.cols replace))
+    (fun r => (R.getD ((idOf k1 r).getD 0).toNat [] ++ R.getD ((idOf k2 r).getD 0).toNat [])
+      ++ maskRow (keepMask px.cols replace) r)]
+  intro r hr
+  obtain ⟨i, j, hi, hj, _, hi2, _, hj2⟩ := hids r hr
+  unfold specRow
+  rw [hi, hj]
+  simp only [Option.getD_some, Int.toNat_natCast]
+  rw [if_neg (by omega)]
+  have hRi : R[i]? = some (R.getD i []) := by
+    rw [List.getD_eq_getElem?_getD, List.getElem?_eq_getElem (by omega)]; rfl
+  have hRj : R[j]? = some (R.getD j []) := by
+    rw [List.getD_eq_getElem?_getD, List.getElem?_eq_getElem (by omega)]; rfl
+  rw [hRi, hRj]
+
+theorem framePart_contig (W : Frame) (b0 b1 : Nat) (hW : Contig W 0) :
+    Contig (framePart W b0 b1) b0 := by
+  unfold Contig at hW ⊢
+  show (W.index.drop b0).take (b1 - b0) = labels (b0 : Int) ((W.rows.drop b0).take (b1 - b0)).length
+  rw [hW, labels_drop_take, List.length_take, List.length_drop]
+  congr 1; simp
+
+theorem framePart_rows_getD (W : Frame) (b0 b1 p : Nat) (h0 : b0 ≤ p) (h1 : p < b1) :
+    (framePart W b0 b1).rows.getD (p - b0) [] = W.rows.getD p [] := by
+  show ((W.rows.drop b0).take (b1 - b0)).getD (p - b0) [] = _
+  rw [List.getD_eq_getElem?_getD, List.getD_eq_getElem?_getD, getElem?_drop_take, if_pos (by omega)]
+  congr 2; omega
+
+theorem framePart_full (W : Frame) (h : W.index.length = W.rows.length) :
+    framePart W 0 W.rows.length = W := by
+  unfold framePart
+  simp only [List.drop_zero, Nat.sub_zero, List.take_length]
+  rw [← h, List.take_length]
+
+/-- **annotate_correct** — bins given as ANY contiguous part `bins_df.iloc[b0:b1]` of the bin table
+`W` (labelled by bin id).  IF every bin id the pixels refer to lies in `[b0, b1)` THEN `annotate`
+equals the specification `annotateSpec` on the WHOLE table: row `k` of the output is the row of bin
+`pixels[k].bin1_id` (columns suffixed `1`), the row of bin `pixels[k].bin2_id` (suffixed `2`) and the
+pixel's own cells (without the id columns when `replace`), in the pixels' order, carrying the
+pixels' index (`annotateSpec_ok` spells this out).  Both strategy branches (`len(bins) > len(pixels)`
+or not) and every offset `b0` are covered: nothing is assumed about the lengths. -/
+theorem annotate_correct (W px : Frame) (b0 b1 k1 k2 : Nat) (replace : Bool)
+    (hW : Contig W 0) (hb : b1 ≤ W.rows.length) (hpx : IdsWithin px k1 k2 b0 b1) :
+    annotate px (.frame (framePart W b0 b1)) replace = annotateSpec W.cols W.rows px replace := by
+  apply annotate_of_sides (.frame (framePart W b0 b1)) W.cols W.rows px k1 k2 b0 b1 replace hb hpx
+  intro sfx ids hids
+  have hlen : (framePart W b0 b1).rows.length = b1 - b0 := by
+    show ((W.rows.drop b0).take (b1 - b0)).length = _
+    rw [List.length_take, List.length_drop]; omega
+  rw [annotateSide_frame (framePart W b0 b1) b0 (framePart_contig W b0 b1 hW) sfx ids (by
+    intro b hb'
+    have := hids b hb'
+    rw [hlen]; omega)]
+  congr 1
+  apply congrArg
+  apply List.map_congr_left
+  intro b hb'
+  have := hids b hb'
+  have e : (b - (b0 : Int)).toNat = b.toNat - b0 := by omega
+  rw [e]
+  exact framePart_rows_getD W b0 b1 b.toNat (by omega) (by omega)
+
+/-- the specification is defined (no error) under the same hypotheses, and says what the property
+says: pixels' index, pixels' order, each row = its two bins' rows followed by its own kept cells -/
+theorem annotateSpec_ok (C : List String) (R : List Row) (px : Frame) (k1 k2 lo hi : Nat) (replace : Bool)
+    (hhi : hi ≤ R.length) (hpx : IdsWithin px k1 k2 lo hi) :
+    ∃ rows, annotateSpec C R px replace =
+        .ok ⟨C.map (· ++ "1") ++ C.map (· ++ "2") ++ maskRow (keepMask px.cols replace) px.cols,
+             px.index, rows, false⟩
+      ∧ rows.length = px.rows.length
+      ∧ ∀ (k : Nat) (r : Row), px.rows[k]? = some r →
+          ∃ (i j : Nat) (bi bj : Row), idOf k1 r = some (i : Int) ∧ idOf k2 r = some (j : Int) ∧
+            R[i]? = some bi ∧ R[j]? = some bj ∧
+            rows[k]? = some (bi ++ bj ++ maskRow (keepMask px.cols replace) r) := by
+  obtain ⟨hk1, hk2, hids⟩ := hpx
+  refine ⟨px.rows.map fun r => (R.getD ((idOf k1 r).getD 0).toNat [] ++ R.getD ((idOf k2 r).getD 0).toNat [])
+      ++ maskRow (keepMask px.cols replace) r, ?_, by simp, ?_⟩
+  · unfold annotateSpec
+    rw [hk1, hk2]
+    simp only
+    rw [mapE_ok_map (specRow R k1 k2 (keepMask px.cols replace))
+      (fun r => (R.getD ((idOf k1 r).getD 0).toNat [] ++ R.getD ((idOf k2 r).getD 0).toNat [])
+        ++ maskRow (keepMask px.cols replace) r)]
+    intro r hr
+    obtain ⟨i, j, hi', hj, _, hi2, _, hj2⟩ := hids r hr
+    unfold specRow
+    rw [hi', hj]
+    simp only [Option.getD_some, Int.toNat_natCast]
+    rw [if_neg (by omega)]
+    have hRi : R[i]? = some (R.getD i []) := by
+      rw [List.getD_eq_getElem?_getD, List.getElem?_eq_getElem (by omega)]; rfl
+    have hRj : R[j]? = some (R.getD j []) := by
+      rw [List.getD_eq_getElem?_getD, List.getElem?_eq_getElem (by omega)]; rfl
+    rw [hRi, hRj]
+  · intro k r hr
+    obtain ⟨i, j, hi', hj, _, hi2, _, hj2⟩ := hids r (List.mem_of_getElem? hr)
+    refine ⟨i, j, R.getD i [], R.getD j [], hi', hj, ?_, ?_, ?_⟩
+    · rw [List.getD_eq_getElem?_getD, List.getElem?_eq_getElem (by omega)]; rfl
+    · rw [List.getD_eq_getElem?_getD, List.getElem?_eq_getElem (by omega)]; rfl
+    · rw [List.getElem?_map, hr]
+      simp only [Option.map_some, hi', hj, Option.getD_some, Int.toNat_natCast]
+
+/-- non-vacuity of `annotate_correct`: three bins, the part `[1, 3)` (first label 1), two pixels in
+reverse bin order with index labels 10, 11 — the window branch (`len(bins) = 2 > 1`) for one pixel
+and the whole-table branch for two -/
+example :
+    let W : Frame := ⟨["chrom", "start"], [0, 1, 2],
+      [[.str "c0", .int 0], [.str "c0", .int 10], [.str "c1", .int 0]], false⟩
+    let px : Frame := ⟨["bin1_id", "bin2_id", "count"], [10, 11],
+      [[.int 2, .int 2, .int 5], [.int 1, .int 2, .int 7]], false⟩
+    Contig W 0 ∧ IdsWithin px 0 1 1 3 ∧
+    annotate px (.frame (framePart W 1 3)) true
+      = .ok ⟨["chrom1", "start1", "chrom2", "start2", "count"], [10, 11],
+          [[.str "c1", .int 0, .str "c1", .int 0, .int 5],
+           [.str "c0", .int 10, .str "c1", .int 0, .int 7]], false⟩ := by
+  refine ⟨by unfold Contig; decide, ⟨by decide, by decide, ?_⟩, by decide⟩
+  intro r hr
+  simp only [List.mem_cons, List.not_mem_nil, or_false] at hr
+  rcases hr with rfl | rfl
+  · exact ⟨2, 2, by decide⟩
+  · exact ⟨1, 2, by decide⟩
+
+/-! ### bins given as the selector `Cooler.bins()` -/
+
+theorem binsDecode_shape (t : Stored) (names : List String) (target : Option (String × Nat))
+    (W W' : Frame) (h : binsDecode t names target W = .ok W') :
+    W'.cols = W.cols ∧ W'.index = W.index ∧ W'.rows.length = W.rows.length := by
+  unfold binsDecode at h
+  match target with
+  | none => simp only [Except.ok.injEq] at h; subst h; simp
+  | some (name, j) =>
+    simp only at h
+    split at h
+    · split at h
+      · cases h
+      · simp only [Except.ok.injEq] at h; subst h; simp
+    · simp only [Except.ok.injEq] at h; subst h; simp
+
+theorem tableGet_whole_contig (t : Stored) (fs : List String) (series : Bool) (W : Frame)
+    (hW : tableGet t 0 (some (t.rows.length : Int)) fs series = .ok W) :
+    Contig W 0 ∧ W.rows.length ≤ t.rows.length := by
+  have h0 := tableGet_nat t 0 t.rows.length fs series
+  rw [show ((0 : Nat) : Int) = 0 from rfl, hW] at h0
+  simp only [List.drop_zero, Nat.sub_zero, List.take_length] at h0
+  split at h0
+  · cases h0
+  · split at h0
+    · cases h0
+    · split at h0
+      · simp only [Except.ok.injEq] at h0; subst h0; simp [Contig, labels]
+      · simp only [Except.ok.injEq] at h0; subst h0; simp [Contig]
+
+theorem binsSel_whole (s : BinsSel) (W : Frame) (hn : s.nmax = s.t.rows.length)
+    (hW : s.getRows (.slice none none none) = .ok W) :
+    binsGet s.t s.chromNames 0 (some (s.t.rows.length : Int)) s.fields = .ok W := by
+  simp only [BinsSel.getRows, processKey, true_or, if_true, processSlice, normBound] at hW
+  rw [← hn]; exact hW
+
+theorem binsSel_whole_shape (s : BinsSel) (W : Frame) (hn : s.nmax = s.t.rows.length)
+    (hW : s.getRows (.slice none none none) = .ok W) :
+    Contig W 0 ∧ W.rows.length ≤ s.t.rows.length := by
+  have h := binsSel_whole s W hn hW
+  simp only [binsGet] at h
+  cases hout : tableGet s.t 0 (some (s.t.rows.length : Int)) (s.fields.resolve binsStd s.t.names).1
+      (s.fields.resolve binsStd s.t.names).2 with
+  | error e => rw [hout] at h; simp at h
+  | ok out =>
+    rw [hout] at h
+    obtain ⟨_, h2, h3⟩ := binsDecode_shape _ _ _ out W h
+    obtain ⟨h4, h5⟩ := tableGet_whole_contig _ _ _ out hout
+    refine ⟨?_, by omega⟩
+    unfold Contig at h4 ⊢
+    rw [h2, h3]; exact h4
+
+theorem le_foldl_min (rest : List Int) (i c : Int) (h : ∀ b ∈ i :: rest, c ≤ b) : c ≤ rest.foldl min i := by
+  induction rest generalizing i with
+  | nil => exact h i (by simp)
+  | cons x xs ih =>
+    simp only [List.foldl_cons]
+    apply ih
+    intro b hb
+    rcases List.mem_cons.mp hb with rfl | hb'
+    · have := h i (by simp); have := h x (by simp); omega
+    · exact h b (by simp [hb'])
+
+/-- the window is made of non-negative numbers when the ids are -/
+theorem window_nonneg (len : Nat) (ids : List Int) (h : ∀ b ∈ ids, 0 ≤ b) :
+    0 ≤ (annotateWindow len ids).1 ∧ ∀ e', (annotateWindow len ids).2 = some e' → 0 ≤ e' := by
+  cases ids with
+  | nil => simp [annotateWindow]
+  | cons i rest =>
+    simp only [annotateWindow]
+    split
+    · refine ⟨le_foldl_min rest i 0 h, ?_⟩
+      intro e' he'
+      simp only [Option.some.injEq] at he'
+      subst he'
+      have := le_foldl_max rest i i (by simp)
+      have := h i (by simp)
+      omega
+    · exact ⟨by simp, by intro e' he'; cases he'⟩
+
+/-- one side of `annotate` against the selector: `sel[bmin : bmax + 1]` (or `sel[0:]`) is the part
+of the whole table, and the positional take relative to its first label finds every id's row -/
+theorem annotateSide_selector (s : BinsSel) (W : Frame) (hn : s.nmax = s.t.rows.length)
+    (hW : s.getRows (.slice none none none) = .ok W) (suffix : String) (ids : List Int)
+    (hids : ∀ b ∈ ids, (0 : Int) ≤ b ∧ b < (W.rows.length : Int)) :
+    annotateSide (.selector s) suffix ids =
+      .ok (W.cols.map (· ++ suffix), ids.map fun b => W.rows.getD b.toNat []) := by
+  obtain ⟨hc, hle⟩ := binsSel_whole_shape s W hn hW
+  have hwhole := binsSel_whole s W hn hW
+  unfold annotateSide
+  have hcov : ∀ b ∈ ids, (annotateWindow (BinsArg.selector s).len ids).1 ≤ b ∧
+      ∀ e', (annotateWindow (BinsArg.selector s).len ids).2 = some e' → b ≤ e' :=
+    fun b hb => window_covers _ ids b hb (hids b hb).1
+  obtain ⟨hnn1, hnn2⟩ := window_nonneg (BinsArg.selector s).len ids (fun b hb => (hids b hb).1)
+  generalize annotateWindow (BinsArg.selector s).len ids = win at hcov hnn1 hnn2 ⊢
+  obtain ⟨beg, e⟩ := win
+  simp only at hcov hnn1 hnn2
+  -- the part of the table the selector returns for this window
+  have hsl : ∃ b' : Nat, locSlice (.selector s) beg e = .ok (framePart W beg.toNat b') ∧
+      (∀ b ∈ ids, b.toNat < b') := by
+    cases e with
+    | none =>
+      refine ⟨s.t.rows.length, ?_, ?_⟩
+      · simp only [locSlice, BinsSel.getRows, Option.map_none, processKey, true_or, if_true, processSlice,
+          normBound]
+        rw [if_neg (by omega), hn]
+        have := binsGet_part s.t s.chromNames s.fields W beg.toNat s.t.rows.length hwhole
+        rw [Int.toNat_of_nonneg hnn1] at this
+        exact this
+      · intro b hb; have := hids b hb; omega
+    | some e' =>
+      have he0 := hnn2 e' rfl
+      refine ⟨(e' + 1).toNat, ?_, ?_⟩
+      · simp only [locSlice, BinsSel.getRows, Option.map_some, processKey, true_or, if_true, processSlice,
+          normBound]
+        rw [if_neg (by omega), if_neg (by omega)]
+        have := binsGet_part s.t s.chromNames s.fields W beg.toNat (e' + 1).toNat hwhole
+        rw [Int.toNat_of_nonneg hnn1, Int.toNat_of_nonneg (by omega)] at this
+        exact this
+      · intro b hb; have := (hcov b hb).2 e' rfl; have := hids b hb; omega
+  obtain ⟨b', hsl, hlt⟩ := hsl
+  simp only [hsl]
+  have htake : ∀ b ∈ ids,
+      ilocOk (framePart W beg.toNat b').rows.length (b - firstLabel (framePart W beg.toNat b').index) = true ∧
+      (framePart W beg.toNat b').rows.getD
+        (ilocPos (framePart W beg.toNat b').rows.length (b - firstLabel (framePart W beg.toNat b').index)) []
+        = W.rows.getD b.toNat [] := by
+    intro b hb
+    have h1 := hids b hb
+    have h2 := (hcov b hb).1
+    have := part_take W 0 beg.toNat b' b.toNat hc (by omega) (hlt b hb) (by omega)
+    have hb0 : ((0 + b.toNat : Nat) : Int) = b := by omega
+    rw [hb0] at this
+    exact this
+  have hall : (ids.all fun b => ilocOk (framePart W beg.toNat b').rows.length
+      (b - firstLabel (framePart W beg.toNat b').index)) = true :=
+    List.all_eq_true.mpr fun b hb => (htake b hb).1
+  simp only [hall, Bool.not_true, Bool.false_eq_true, if_false, Except.ok.injEq, Prod.mk.injEq]
+  exact ⟨rfl, List.map_congr_left fun b hb => (htake b hb).2⟩
+
+/-- **annotate_selector_correct** — bins given as the selector `c.bins()` (with any column
+argument): `annotate` equals the specification on `W = c.bins()[cols][:]`, whenever the ids are bin
+ids of the table.  (`len(bins)` is the table length; both strategy branches are covered.) -/
+theorem annotate_selector_correct (s : BinsSel) (W px : Frame) (k1 k2 : Nat) (replace : Bool)
+    (hn : s.nmax = s.t.rows.length) (hW : s.getRows (.slice none none none) = .ok W)
+    (hpx : IdsWithin px k1 k2 0 W.rows.length) :
+    annotate px (.selector s) replace = annotateSpec W.cols W.rows px replace := by
+  apply annotate_of_sides (.selector s) W.cols W.rows px k1 k2 0 W.rows.length replace (Nat.le_refl _) hpx
+  intro sfx ids hids
+  exact annotateSide_selector s W hn hW sfx ids (by intro b hb; have := hids b hb; omega)
+
+/-- **annotate_forms_agree** — the whole frame `c.bins()[:]`, the selector `c.bins()` and any
+contiguous part `bins_df.iloc[b0:b1]` containing the needed bins give the same annotated frame. -/
+theorem annotate_forms_agree (s : BinsSel) (W px : Frame) (b0 b1 k1 k2 : Nat) (replace : Bool)
+    (hn : s.nmax = s.t.rows.length) (hW : s.getRows (.slice none none none) = .ok W)
+    (hb : b1 ≤ W.rows.length) (hpx : IdsWithin px k1 k2 b0 b1) :
+    annotate px (.frame (framePart W b0 b1)) replace = annotate px (.frame W) replace
+    ∧ annotate px (.selector s) replace = annotate px (.frame W) replace := by
+  obtain ⟨hc, _⟩ := binsSel_whole_shape s W hn hW
+  have hwide : IdsWithin px k1 k2 0 W.rows.length := by
+    obtain ⟨h1, h2, h3⟩ := hpx
+    refine ⟨h1, h2, ?_⟩
+    intro r hr
+    obtain ⟨i, j, hi, hj, _, _, _, _⟩ := h3 r hr
+    exact ⟨i, j, hi, hj, by omega, by omega, by omega, by omega⟩
+  have hfull : framePart W 0 W.rows.length = W := framePart_full W (by rw [hc, labels_length])
+  have hwhole := annotate_correct W px 0 W.rows.length k1 k2 replace hc (Nat.le_refl _) hwide
+  rw [hfull] at hwhole
+  rw [annotate_correct W px b0 b1 k1 k2 replace hc hb hpx,
+    annotate_selector_correct s W px k1 k2 replace hn hW hwide, hwhole]
+  exact ⟨rfl, rfl⟩
+
+/-- **annotate_empty** — the repaired behaviour (known_findings D15, 9d9fdcb): with no pixel at all,
+`annotate` against ANY frame — whatever its labels; in particular a part of the bin table that does
+not contain bin 0, or an empty one — is the empty frame with the annotated column names and the
+pixels' (empty) index; it does not raise. -/
+theorem annotate_empty (px f : Frame) (k1 k2 : Nat) (replace : Bool) (hrows : px.rows = [])
+    (hk1 : colIdx px.cols "bin1_id" = some k1) (hk2 : colIdx px.cols "bin2_id" = some k2) :
+    annotate px (.frame f) replace =
+      .ok ⟨f.cols.map (· ++ "1") ++ f.cols.map (· ++ "2") ++ maskRow (keepMask px.cols replace) px.cols,
+           px.index, [], false⟩ := by
+  simp [annotate, annotateCol, hk1, hk2, hrows, annotateSide, annotateWindow, locSlice, locSliceFrame,
+    framePart, hcat]
+
+/-- non-vacuity: no pixels, the part `[2, 3)` of a bin table (first label 2: the case that raised) -/
+example :
+    annotate ⟨["bin1_id", "bin2_id", "count"], [], [], false⟩
+      (.frame ⟨["chrom", "start"], [2], [[.str "c1", .int 0]], false⟩) true
+    = .ok ⟨["chrom1", "start1", "chrom2", "start2", "count"], [], [], false⟩ := by decide
 
 end Cooler.C14
